@@ -138,6 +138,15 @@ def correspond(ctx):
             P = matrix(0.0, (Np, 1)); M.pack(matrix(xr, (N, 1), 'd'), P, d, mnl); U = matrix(7.0, (N, 1)); M.unpack(P, U, d, mnl); ident += 1
             if max([abs(a - b) for a, b in zip(low(U), low(matrix(xr, (N, 1), 'd')))] + [0]) > 1e-12:
                 ctx.violation('c08:unpack-pack:' + name, 'unpack(pack(x)) does not restore the lower triangles (%s implementation)' % name, {'dims': d, 'mnl': mnl})
+            # the same through arbitrary, different offsets: identical values, nothing written before the offset
+            ox, oy, ou = rng.randint(0, 3), rng.randint(0, 3), rng.randint(0, 3)
+            Xo = matrix([9.0] * ox + list(xr), (ox + N, 1), 'd'); Po = matrix(5.0, (oy + Np, 1))
+            M.pack(Xo, Po, d, mnl, offsetx=ox, offsety=oy); ident += 1
+            if list(Po[:oy]) != [5.0] * oy or max([abs(a - b) for a, b in zip(Po[oy:], P)] + [0]) > 1e-12:
+                ctx.violation('c08:pack-offsets:' + name, 'pack with offsetx=%d offsety=%d differs from pack at offset 0 (%s implementation)' % (ox, oy, name), {'dims': d, 'mnl': mnl, 'offsets': [ox, oy]})
+            Uo = matrix(7.0, (ou + N, 1)); M.unpack(Po, Uo, d, mnl, offsetx=oy, offsety=ou); ident += 1
+            if list(Uo[:ou]) != [7.0] * ou or max([abs(a - b) for a, b in zip(low(list(Uo[ou:])), low(list(U)))] + [0]) > 1e-12:
+                ctx.violation('c08:unpack-offsets:' + name, 'unpack with offsetx=%d offsety=%d differs from unpack at offset 0 (%s implementation)' % (oy, ou, name), {'dims': d, 'mnl': mnl, 'offsets': [oy, ou]})
             P2 = matrix(0.0, (Np, 1)); M.pack(matrix(yr, (N, 1), 'd'), P2, d, mnl)
             if abs(blas.dot(P, P2) - M.sdot(matrix(xr, (N, 1), 'd'), matrix(yr, (N, 1), 'd'), d, mnl)) > 1e-9 * (1 + abs(blas.dot(P, P2))):
                 ctx.violation('c08:pack-isometry:' + name, '<pack x, pack y> != <x, y>_S (%s implementation)' % name, {'dims': d, 'mnl': mnl})
